@@ -2169,9 +2169,16 @@ CaseX86PushPop_Gp:
                             o1.as<Mem>().base_and_index_types()))
           goto InvalidInstruction;
 
-        rm_rel = &o1;
-        if (ASMJIT_UNLIKELY(o0.as<Mem>().has_offset()))
+        // Only the source `ds:[zsi]` accepts a segment override - it's the second operand of MOVS, but the first of CMPS.
+        rm_rel = (o0.as<Mem>().base_id() == Gp::kIdSi) ? &o0 : &o1;
+
+        const Mem& es_mem = (rm_rel == &o0) ? o1.as<Mem>() : o0.as<Mem>();
+        if (ASMJIT_UNLIKELY(es_mem.has_offset()))
           goto InvalidInstruction;
+
+        // The destination `es:[zdi]` cannot be overridden.
+        if (ASMJIT_UNLIKELY(es_mem.has_segment() && es_mem.segment_id() != SReg::kIdEs))
+          goto InvalidSegment;
 
         uint32_t size = o1.x86_rm_size();
         if (ASMJIT_UNLIKELY(size == 0))
@@ -3931,6 +3938,10 @@ EmitX86OpImplicitMem:
   rm_info = mem_info_table[rm_rel->as<Mem>().base_and_index_types()];
   if (ASMJIT_UNLIKELY(rm_rel->as<Mem>().has_offset() || (rm_info & kX86MemInfo_Index)))
     goto InvalidInstruction;
+
+  // The implicit `es:[zdi]` operand of string instructions (INS, STOS, SCAS, MOVS, CMPS) cannot be overridden.
+  if (ASMJIT_UNLIKELY(rm_rel->as<Mem>().base_id() == Gp::kIdDi && rm_rel->as<Mem>().has_segment() && rm_rel->as<Mem>().segment_id() != SReg::kIdEs))
+    goto InvalidSegment;
 
   // Emit override prefixes (REX has to be the last prefix).
   writer.emit_segment_override(rm_rel->as<Mem>().segment_id());
